@@ -287,7 +287,15 @@ macro_rules! token_mod {
                         ),
                         |(negative, rep)| try_to_int_literal(negative, *rep, 10),
                     ),
-                    map(number::double, NumericValue::Float),
+                    // A literal that is too large to be represented is an error, rather than an infinity (which
+                    // has no representation in Recon).
+                    map_res(number::double, |x: f64| {
+                        if x.is_finite() {
+                            Ok(NumericValue::Float(x))
+                        } else {
+                            Err(())
+                        }
+                    }),
                 ))(input)
             }
 
